@@ -69,6 +69,10 @@ CHECKS = [
      "technique": "bounded exhaustive enumeration of angle/g-vector grids against reference-independent laws (Bragg, rigid rotation, inverse-then-forward, detector round trip) and an own Ewald-sphere test",
      "text": "2304 (tth, eta, omega) x 3 wavelengths x 16 (wedge, chi) x omega sign: |g| lambda = 2 sin theta for Python and C, |g| independent of omega/wedge/chi, g(omega+d) = Rz(-d) g, both inverse solutions map back to g and contain the generating omega; 720 constructed g per setting inside the blind cone and beyond 2/lambda must be flagged, never given angles; detector projection and back on 4096 (16 384) configurations x 192 rays.",
      "note": "cases within 1e-7 of the blind-cone boundary (e.g. eta = 0 or 180 exactly) are borderline"},
+    {"id": "C18", "engine": "E1-explore", "level": "exploration",
+     "technique": "bounded exhaustive enumeration of title sets, parameter dictionaries, grain lists and frames with short save/load/save histories against the documented print precision computed by the oracle",
+     "text": "all 63 non-empty subsets of a 6-title pool (one per FORMATS class + unknown) in two orders x 14-row value tables through text (titles, order, header parameters with types, float(FORMAT % v)), HDF5 via three routes (exact, integer dtype for INT titles), second cycle fixed point, overwriting an HDF group with same/different length with and without chunking; all 4095 subsets of a 12-entry parameter pool; all 585 (thorough 4681) grain lists of length <= 3 (4) over 8 optional-field combinations through text and HDF5 incl. second write; 586 masks x 3 construction routes of sparse frames through to_hdf_group/from_hdf_group with metadata.",
+     "note": "level exploration (histories are short and fixed: save-load-save-load, write-twice); numeric-looking strings and names with '-' excluded by documented design"},
     # --- END CHECKS
 ]
 
